@@ -21,7 +21,15 @@ PINS = {
   "torf/_generate.py:Worker",
   "torf/_generate.py:Reader",
   "torf/_generate.py:HasherPool",
-  "torf/_generate.py:Collector"
+  "torf/_generate.py:Collector",
+  "torf/_stream.py:TorrentFileStream.__init__",
+  "torf/_torrent.py:Torrent.generate",
+  "torf/_torrent.py:Torrent.hashes",
+  "torf/_torrent.py:Torrent.pieces",
+  "torf/_torrent.py:Torrent.files",
+  "torf/_torrent.py:Torrent.size",
+  "torf/_utils.py:File",
+  "torf/_utils.py:Files"
  ],
  "C10": [
   "torf/_stream.py:TorrentFileStream.iter_pieces",
@@ -29,7 +37,16 @@ PINS = {
   "torf/_stream.py:TorrentFileStream._get_open_file",
   "torf/_stream.py:TorrentFileStream._get_file_size_from_fs",
   "torf/_stream.py:_MissingPieces",
-  "torf/_stream.py:TorrentFileStream._get_content_path"
+  "torf/_stream.py:TorrentFileStream._get_content_path",
+  "torf/_stream.py:TorrentFileStream.__init__",
+  "torf/_stream.py:TorrentFileStream.get_piece_indexes_of_file",
+  "torf/_stream.py:TorrentFileStream.get_files_at_piece_index",
+  "torf/_stream.py:TorrentFileStream.get_files_at_byte_range",
+  "torf/_stream.py:TorrentFileStream.get_byte_range_of_file",
+  "torf/_stream.py:TorrentFileStream.get_file_position",
+  "torf/_errors.py:VerifyFileSizeError",
+  "torf/_errors.py:ReadError",
+  "torf/_utils.py:File"
  ],
  "C11": [
   "torf/_stream.py:TorrentFileStream.get_piece",
@@ -38,7 +55,17 @@ PINS = {
   "torf/_stream.py:TorrentFileStream.get_absolute_piece_indexes",
   "torf/_stream.py:TorrentFileStream.get_relative_piece_indexes",
   "torf/_stream.py:TorrentFileStream.get_file_position",
-  "torf/_stream.py:TorrentFileStream._get_content_path"
+  "torf/_stream.py:TorrentFileStream._get_content_path",
+  "torf/_stream.py:TorrentFileStream.__init__",
+  "torf/_stream.py:TorrentFileStream.max_piece_index",
+  "torf/_stream.py:TorrentFileStream.get_file_at_position",
+  "torf/_stream.py:TorrentFileStream.get_piece_indexes_of_file",
+  "torf/_stream.py:TorrentFileStream.get_files_at_byte_range",
+  "torf/_stream.py:TorrentFileStream.get_byte_range_of_file",
+  "torf/_stream.py:TorrentFileStream.get_files_at_piece_index",
+  "torf/_stream.py:TorrentFileStream._get_open_file",
+  "torf/_utils.py:File",
+  "torf/_torrent.py:Torrent.hashes"
  ],
  "C19": [
   "torf/_stream.py:TorrentFileStream.iter_pieces",
@@ -47,7 +74,13 @@ PINS = {
   "torf/_stream.py:TorrentFileStream.get_piece",
   "torf/_stream.py:TorrentFileStream.get_piece_hash",
   "torf/_stream.py:TorrentFileStream.verify_piece",
-  "torf/_stream.py:TorrentFileStream.close"
+  "torf/_stream.py:TorrentFileStream.close",
+  "torf/_stream.py:TorrentFileStream.__init__",
+  "torf/_stream.py:TorrentFileStream.__enter__",
+  "torf/_stream.py:TorrentFileStream.__exit__",
+  "torf/_stream.py:TorrentFileStream._read_from_fh",
+  "torf/_stream.py:TorrentFileStream._get_content_path",
+  "torf/_stream.py:_MissingPieces"
  ],
  "C05": [
   "torf/_utils.py:decode_value",
@@ -55,16 +88,55 @@ PINS = {
   "torf/_utils.py:decode_dict",
   "torf/_utils.py:encode_list",
   "torf/_torrent.py:Torrent.creation_date",
-  "torf/_torrent.py:Torrent.private"
+  "torf/_torrent.py:Torrent.private",
+  "torf/_utils.py:encode_value",
+  "torf/_utils.py:encode_dict",
+  "torf/_torrent.py:Torrent.read_stream",
+  "torf/_torrent.py:Torrent.read",
+  "torf/_torrent.py:Torrent.dump",
+  "torf/_torrent.py:Torrent.convert",
+  "torf/_torrent.py:Torrent.metainfo",
+  "torf/_torrent.py:Torrent.__init__"
  ],
  "C06": [
-  "torf/_utils.py:encode_list"
+  "torf/_utils.py:encode_list",
+  "torf/_utils.py:encode_value",
+  "torf/_utils.py:encode_dict",
+  "torf/_torrent.py:Torrent.infohash",
+  "torf/_torrent.py:Torrent.infohash_base32",
+  "torf/_torrent.py:Torrent.magnet",
+  "torf/_torrent.py:Torrent.dump",
+  "torf/_torrent.py:Torrent.convert",
+  "torf/_torrent.py:Torrent.write",
+  "torf/_torrent.py:Torrent.write_stream",
+  "torf/_torrent.py:Torrent.metainfo",
+  "torf/_torrent.py:Torrent.randomize_infohash",
+  "torf/_torrent.py:Torrent.copy",
+  "torf/_magnet.py:Magnet.__init__",
+  "torf/_magnet.py:Magnet.__str__"
  ],
  "C07": [
   "torf/_utils.py:assert_type",
   "torf/_utils.py:key_exists_in_list_or_dict",
   "torf/_utils.py:is_url",
-  "torf/_utils.py:encode_list"
+  "torf/_utils.py:encode_list",
+  "torf/_utils.py:is_non_negative",
+  "torf/_utils.py:is_md5sum",
+  "torf/_utils.py:is_divisible_by_16_kib",
+  "torf/_utils.py:force_as_string",
+  "torf/_utils.py:iterable_startswith",
+  "torf/_utils.py:encode_value",
+  "torf/_utils.py:encode_dict",
+  "torf/_utils.py:Iterable",
+  "torf/_torrent.py:Torrent.validate",
+  "torf/_torrent.py:Torrent.is_ready",
+  "torf/_torrent.py:Torrent.dump",
+  "torf/_torrent.py:Torrent.convert",
+  "torf/_torrent.py:Torrent.infohash",
+  "torf/_torrent.py:Torrent.magnet",
+  "torf/_torrent.py:Torrent.metainfo",
+  "torf/_torrent.py:Torrent.write_stream",
+  "torf/_errors.py:MetainfoError"
  ],
  "C08": [
   "torf/_utils.py:decode_value",
@@ -72,9 +144,34 @@ PINS = {
   "torf/_utils.py:decode_dict",
   "torf/_utils.py:assert_type",
   "torf/_torrent.py:Torrent.creation_date",
-  "torf/_torrent.py:Torrent.private"
+  "torf/_torrent.py:Torrent.private",
+  "torf/_torrent.py:Torrent.read_stream",
+  "torf/_torrent.py:Torrent.read",
+  "torf/_torrent.py:Torrent.validate",
+  "torf/_torrent.py:Torrent.metainfo",
+  "torf/_utils.py:is_non_negative",
+  "torf/_utils.py:is_md5sum",
+  "torf/_utils.py:is_divisible_by_16_kib",
+  "torf/_utils.py:force_as_string",
+  "torf/_utils.py:iterable_startswith",
+  "torf/_utils.py:encode_value",
+  "torf/_utils.py:encode_dict",
+  "torf/_utils.py:encode_list",
+  "torf/_magnet.py:Magnet.from_string",
+  "torf/_magnet.py:Magnet.__init__",
+  "torf/_errors.py:BdecodeError",
+  "torf/_errors.py:MetainfoError",
+  "torf/_errors.py:MagnetError",
+  "torf/_errors.py:URLError"
  ],
- "C17": [],
+ "C17": [
+  "torf/_torrent.py:Torrent.write",
+  "torf/_torrent.py:Torrent.write_stream",
+  "torf/_torrent.py:Torrent.dump",
+  "torf/_torrent.py:Torrent.convert",
+  "torf/_torrent.py:Torrent.validate",
+  "torf/_errors.py:WriteError"
+ ],
  "C16": [
   "torf/_utils.py:MonitoredList",
   "torf/_utils.py:URL",
@@ -86,12 +183,24 @@ PINS = {
   "torf/_torrent.py:Torrent.webseeds",
   "torf/_torrent.py:Torrent._webseeds_changed",
   "torf/_torrent.py:Torrent.httpseeds",
-  "torf/_torrent.py:Torrent._httpseeds_changed"
+  "torf/_torrent.py:Torrent._httpseeds_changed",
+  "torf/_utils.py:is_url",
+  "torf/_torrent.py:Torrent.metainfo",
+  "torf/_errors.py:URLError"
  ],
  "C20": [
   "torf/_torrent.py:Torrent.verify_filesize",
   "torf/_torrent.py:Torrent.partial_size",
-  "torf/_utils.py:real_size"
+  "torf/_utils.py:real_size",
+  "torf/_torrent.py:Torrent.files",
+  "torf/_torrent.py:Torrent.mode",
+  "torf/_torrent.py:Torrent.name",
+  "torf/_errors.py:VerifyFileSizeError",
+  "torf/_errors.py:ReadError",
+  "torf/_errors.py:VerifyIsDirectoryError",
+  "torf/_errors.py:VerifyNotDirectoryError",
+  "torf/_utils.py:File",
+  "torf/_utils.py:iterable_startswith"
  ],
  "C13": [
   "torf/_magnet.py:Magnet.__str__",
@@ -104,7 +213,16 @@ PINS = {
   "torf/_magnet.py:Magnet.kt",
   "torf/_magnet.py:Magnet.xl",
   "torf/_magnet.py:Magnet.__init__",
-  "torf/_utils.py:URL"
+  "torf/_utils.py:URL",
+  "torf/_magnet.py:Magnet.x",
+  "torf/_magnet.py:Magnet.xt",
+  "torf/_magnet.py:Magnet.infohash",
+  "torf/_magnet.py:Magnet.torrent",
+  "torf/_torrent.py:Torrent.magnet",
+  "torf/_utils.py:URLs",
+  "torf/_utils.py:is_url",
+  "torf/_torrent.py:Torrent.name",
+  "torf/_torrent.py:Torrent.size"
  ],
  "C14": [
   "torf/_magnet.py:Magnet.torrent",
@@ -112,7 +230,15 @@ PINS = {
   "torf/_magnet.py:Magnet._set_info_from_torrent",
   "torf/_magnet.py:Magnet._infohash_hex",
   "torf/_magnet.py:Magnet._has_info",
-  "torf/_magnet.py:Magnet.xl"
+  "torf/_magnet.py:Magnet.xl",
+  "torf/_magnet.py:Magnet.xt",
+  "torf/_magnet.py:Magnet.infohash",
+  "torf/_magnet.py:Magnet.__init__",
+  "torf/_utils.py:download",
+  "torf/_utils.py:download_http",
+  "torf/_utils.py:URL",
+  "torf/_utils.py:is_url",
+  "torf/_errors.py:MagnetError"
  ],
  "C09": [
   "torf/_torrent.py:Torrent._set_files",
@@ -125,39 +251,97 @@ PINS = {
   "torf/_torrent.py:Torrent.filepaths",
   "torf/_utils.py:MonitoredList",
   "torf/_utils.py:Filepaths",
-  "torf/_utils.py:Files"
+  "torf/_utils.py:Files",
+  "torf/_torrent.py:Torrent._filepaths_changed",
+  "torf/_torrent.py:Torrent._files_changed",
+  "torf/_torrent.py:Torrent._filters_changed",
+  "torf/_torrent.py:Torrent.exclude_globs",
+  "torf/_torrent.py:Torrent.exclude_regexs",
+  "torf/_torrent.py:Torrent.include_globs",
+  "torf/_torrent.py:Torrent.include_regexs",
+  "torf/_torrent.py:Torrent.metainfo",
+  "torf/_torrent.py:Torrent.name",
+  "torf/_torrent.py:Torrent.size",
+  "torf/_torrent.py:Torrent.mode",
+  "torf/_torrent.py:Torrent.pieces",
+  "torf/_torrent.py:Torrent.calculate_piece_size",
+  "torf/_torrent.py:Torrent.__init__",
+  "torf/_utils.py:File",
+  "torf/_utils.py:Filepath",
+  "torf/_utils.py:filter_files",
+  "torf/_utils.py:list_files",
+  "torf/_errors.py:PieceSizeError"
  ],
  "C02": [
   "torf/_torrent.py:Torrent.verify",
   "torf/_generate.py:VerifyCallback",
-  "torf/_errors.py:VerifyContentError"
+  "torf/_errors.py:VerifyContentError",
+  "torf/_stream.py:TorrentFileStream.iter_pieces",
+  "torf/_stream.py:TorrentFileStream._iter_from_file_handle",
+  "torf/_stream.py:_MissingPieces",
+  "torf/_stream.py:TorrentFileStream.__init__",
+  "torf/_stream.py:TorrentFileStream._get_content_path",
+  "torf/_errors.py:VerifyFileSizeError",
+  "torf/_errors.py:ReadError",
+  "torf/_torrent.py:Torrent.hashes",
+  "torf/_torrent.py:Torrent.files"
  ],
  "C03": [
   "torf/_generate.py:Worker",
   "torf/_generate.py:Reader",
   "torf/_generate.py:HasherPool",
-  "torf/_generate.py:Collector"
+  "torf/_generate.py:Collector",
+  "torf/_generate.py:GenerateCallback",
+  "torf/_generate.py:VerifyCallback",
+  "torf/_generate.py:_IntervaledCallback",
+  "torf/_generate.py:_TranslatingCallback",
+  "torf/_torrent.py:Torrent.generate",
+  "torf/_torrent.py:Torrent.verify"
  ],
  "C04": [
   "torf/_generate.py:Worker",
   "torf/_generate.py:Reader",
   "torf/_generate.py:HasherPool",
   "torf/_generate.py:Collector",
-  "torf/_torrent.py:Torrent.generate"
+  "torf/_torrent.py:Torrent.generate",
+  "torf/_generate.py:GenerateCallback",
+  "torf/_generate.py:VerifyCallback",
+  "torf/_generate.py:_IntervaledCallback",
+  "torf/_generate.py:_TranslatingCallback",
+  "torf/_torrent.py:Torrent.verify",
+  "torf/_stream.py:TorrentFileStream._read_from_fh",
+  "torf/_errors.py:ReadError"
  ],
  "C12": [
   "torf/_generate.py:Collector",
   "torf/_generate.py:_IntervaledCallback",
   "torf/_generate.py:_TranslatingCallback",
   "torf/_generate.py:GenerateCallback",
-  "torf/_generate.py:VerifyCallback"
+  "torf/_generate.py:VerifyCallback",
+  "torf/_torrent.py:Torrent.generate",
+  "torf/_torrent.py:Torrent.verify",
+  "torf/_torrent.py:Torrent.pieces"
  ],
  "C15": [
   "torf/_utils.py:list_files",
   "torf/_utils.py:filter_files",
   "torf/_torrent.py:Torrent._set_files",
   "torf/_torrent.py:Torrent.path",
-  "torf/_utils.py:File"
+  "torf/_utils.py:File",
+  "torf/_torrent.py:Torrent.name",
+  "torf/_torrent.py:Torrent.files",
+  "torf/_torrent.py:Torrent.filepaths",
+  "torf/_torrent.py:Torrent._filters_changed",
+  "torf/_torrent.py:Torrent.exclude_globs",
+  "torf/_torrent.py:Torrent.exclude_regexs",
+  "torf/_torrent.py:Torrent.include_globs",
+  "torf/_torrent.py:Torrent.include_regexs",
+  "torf/_torrent.py:Torrent.__init__",
+  "torf/_utils.py:Filepath",
+  "torf/_utils.py:Filepaths",
+  "torf/_utils.py:Files",
+  "torf/_utils.py:MonitoredList",
+  "torf/_utils.py:real_size"
  ],
  "C18": [
   "torf/_reuse.py:find_torrent_files",
@@ -166,7 +350,18 @@ PINS = {
   "torf/_reuse.py:is_content_match",
   "torf/_reuse.py:copy",
   "torf/_reuse.py:ReuseCallback",
-  "torf/_torrent.py:Torrent.reuse"
+  "torf/_torrent.py:Torrent.reuse",
+  "torf/_torrent.py:Torrent.name",
+  "torf/_torrent.py:Torrent.files",
+  "torf/_torrent.py:Torrent.piece_size",
+  "torf/_torrent.py:Torrent.piece_size_min",
+  "torf/_torrent.py:Torrent.piece_size_max",
+  "torf/_torrent.py:Torrent.read",
+  "torf/_torrent.py:Torrent.hashes",
+  "torf/_stream.py:TorrentFileStream.verify_piece",
+  "torf/_stream.py:TorrentFileStream.get_piece",
+  "torf/_stream.py:TorrentFileStream.get_piece_indexes_of_file",
+  "torf/_utils.py:File"
  ]
 }
 
